@@ -218,6 +218,10 @@ class VectorProperty(Property):
             v = v2_vector_from_model(model)
             if v:
                 vs.append(("2", v))
+        if unit.startswith("cvss4"):
+            v = v4_vector_from_model(model)
+            if v:
+                vs.append(("4", v))
         return vs
 
     def job(self, ver, vector, o=None):
@@ -230,12 +234,15 @@ class VectorProperty(Property):
         rng = random.Random(1)
         out = []
         for ver, v in self.vectors_of(o):
-            out += [self.job(ver, x, o) for x in (v3_neighbourhood(v, rng) if ver == "3" else v2_neighbourhood(v, rng))]
+            nb = {"3": v3_neighbourhood, "2": v2_neighbourhood, "4": v4_neighbourhood}[ver]
+            out += [self.job(ver, x, o) for x in nb(v, rng)]
         unit = o.get("unit", "")
         if unit.startswith("cvss3"):
             out += [self.job("3", x, o) for x in v3_random(rng, 3000)]
         if unit.startswith("cvss2"):
             out += [self.job("2", x, o) for x in v2_random(rng, 3000)]
+        if unit.startswith("cvss4"):
+            out += [self.job("4", x, o) for x in v4_random(rng, 3000)]
         return out
 
     def bounded(self, tier, seed):
@@ -243,7 +250,8 @@ class VectorProperty(Property):
         n = 4000 if tier == "quick" else 60000
         jobs = [self.job("3", x) for x in list(v3_all_base((1,)))[::7] + v3_random(rng, n)]
         jobs += [self.job("2", x) for x in list(v2_all_base()) + v2_random(rng, n)]
-        return jobs, "every 7th v3.1 base vector, all 729 v2 base vectors, %d random v2 + %d random v3 vectors" % (n, n)
+        jobs += [self.job("4", x) for x in v4_random(rng, n)]
+        return jobs, "every 7th v3.1 base vector, all 729 v2 base vectors, %d random vectors per version" % n
 
 
 class C03(VectorProperty):
@@ -266,15 +274,22 @@ C01.jobs = lambda self, tier: contract_jobs("contracts.cvss3", V3_SCORING) + con
 
 
 
-PARSE_V23 = [("cvss2", "CVSS2.parse_vector"), ("cvss3", "CVSS3.parse_vector")]
-INIT_V23 = [("cvss2", "CVSS2.check_mandatory"), ("cvss3", "CVSS3.check_mandatory"),
-            ("cvss2", "CVSS2.__init__"), ("cvss3", "CVSS3.__init__")]
+PARSE_V23 = [("cvss2", "CVSS2.parse_vector"), ("cvss3", "CVSS3.parse_vector"), ("cvss4", "CVSS4.parse_vector")]
+INIT_V23 = [("cvss2", "CVSS2.check_mandatory"), ("cvss3", "CVSS3.check_mandatory"), ("cvss4", "CVSS4.check_mandatory"),
+            ("cvss2", "CVSS2.__init__"), ("cvss3", "CVSS3.__init__"), ("cvss4", "CVSS4.__init__")]
+
+V4_SCORING = [("cvss4", "CVSS4." + n) for n in (
+    "m", "macroVector", "extract_value_metric", "add_missing_optional", "compute_base_score",
+    "compute_severity", "scores")]
 
 
-def acc(names, versions=("2", "3")):
+def acc(names, versions=("2", "3", "4")):
     out = []
     for v in versions:
-        out += [("cvss" + v, "CVSS%s.%s" % (v, n)) for n in names]
+        for n in names:
+            if v == "4" and n in ("temporal_vector", "environmental_vector"):
+                continue
+            out.append(("cvss" + v, "CVSS%s.%s" % (v, n)))
     return out
 
 
@@ -286,7 +301,7 @@ def split_by_module(keys):
 
 
 WF_CONE = [("contracts.parse", PARSE_V23), ("contracts.init", INIT_V23),
-           ("contracts.cvss3", V3_SCORING), ("contracts.cvss2", V2_SCORING)]
+           ("contracts.cvss3", V3_SCORING), ("contracts.cvss2", V2_SCORING), ("contracts.cvss4", V4_SCORING)]
 
 
 class C04(VectorProperty):
@@ -395,11 +410,6 @@ class C19(VectorProperty):
                 {"version": "2", "vector": "AV:N/AC:L/Au:N/C:P/I:P/A:P/CR:L/IR:L/AR:L"},
                 {"version": "3", "vector": "CVSS:3.1/AV:N"}, {"version": "2", "vector": "garbage"}]
         return {"check": "C19", "input": {"version": ver, "vector": vector, "history": hist}}
-
-
-V4_SCORING = [("cvss4", "CVSS4." + n) for n in (
-    "m", "macroVector", "extract_value_metric", "add_missing_optional", "compute_base_score",
-    "compute_severity", "scores")]
 
 
 def v4_vector_from_model(model, prefix="o"):
